@@ -563,6 +563,8 @@ class DatasetProcessor:
         if os.path.exists(lock_file):
             if self.args.resume:
                 logger.info("Collected reads detected, will not process")
+                # the number of unaligned reads is not stored in the save files, but the count tables report it
+                self.count_unaligned_reads(sample)
                 return
             else:
                 os.remove(lock_file)
@@ -604,9 +606,7 @@ class DatasetProcessor:
         total_assignments += unique_assignments
         polya_assignments += polya_unique_assignments
 
-        for bam_file in list(map(lambda x: x[0], sample.file_list)):
-            bam = pysam.AlignmentFile(bam_file, "rb", require_index=True)
-            self.alignment_stat_counter.add(AlignmentType.unaligned, bam.unmapped)
+        self.count_unaligned_reads(sample)
         self.alignment_stat_counter.print_start("Alignments collected, overall alignment statistics:")
 
         info_dumper = open(info_file, "wb")
@@ -621,6 +621,11 @@ class DatasetProcessor:
         else:
             logger.info('Finishing read assignment, total assignments %d, polyA percentage %.1f' %
                         (total_assignments, 100 * polya_assignments / total_assignments))
+
+    def count_unaligned_reads(self, sample):
+        for bam_file in list(map(lambda x: x[0], sample.file_list)):
+            bam = pysam.AlignmentFile(bam_file, "rb", require_index=True)
+            self.alignment_stat_counter.add(AlignmentType.unaligned, bam.unmapped)
 
     def prepare_multimapper_dict(self, chr_ids, sample, multimappers_counts):
         logger.info("Counting multimapped reads")
